@@ -6,6 +6,8 @@ copy, to look for false alarms.
   refactor_variants.py unparse   - re-emit every module with ast.unparse
                                    (drops comments, normalises formatting)
   refactor_variants.py both
+  refactor_variants.py temps     - bind return values and comparison tests to
+                                   temporaries first
 
 Runs all quick checks with --root on the copy and prints the ones that do
 not exit 0.  The copy is removed afterwards."""
@@ -110,12 +112,57 @@ class Renamer(ast.NodeTransformer):
         return node
 
 
+class Temps(ast.NodeTransformer):
+    """Behaviour-preserving introduction of temporaries:
+    ``return E`` -> ``_rv = E; return _rv`` and ``if <compare>:`` ->
+    ``_t = <compare>; if _t:`` (one evaluation, same truth value)."""
+
+    def __init__(self):
+        self.n = 0
+
+    def _block(self, stmts):
+        out = []
+        for st in stmts:
+            st = self.visit(st)
+            if isinstance(st, ast.Return) and st.value is not None and \
+                    not isinstance(st.value, (ast.Name, ast.Constant)):
+                self.n += 1
+                name = '_rv%d' % self.n
+                out.append(ast.Assign(targets=[ast.Name(id=name, ctx=ast.Store())], value=st.value,
+                                      lineno=st.lineno, col_offset=0))
+                out.append(ast.Return(value=ast.Name(id=name, ctx=ast.Load()), lineno=st.lineno,
+                                      col_offset=0))
+            elif isinstance(st, ast.If) and isinstance(st.test, ast.Compare):
+                self.n += 1
+                name = '_t%d' % self.n
+                out.append(ast.Assign(targets=[ast.Name(id=name, ctx=ast.Store())], value=st.test,
+                                      lineno=st.lineno, col_offset=0))
+                st.test = ast.Name(id=name, ctx=ast.Load())
+                out.append(st)
+            else:
+                out.append(st)
+        return out
+
+    def generic_visit(self, node):
+        for field in ('body', 'orelse', 'finalbody'):
+            val = getattr(node, field, None)
+            if isinstance(val, list) and val and isinstance(val[0], ast.stmt):
+                setattr(node, field, self._block(val))
+        if isinstance(node, ast.Try):
+            for h in node.handlers:
+                h.body = self._block(h.body)
+        return node
+
+
 def transform(path, mode):
     with open(path, encoding='utf-8') as handle:
         src = handle.read()
     tree = ast.parse(src)
     if 'rename' in mode:
         tree = Renamer(src, path).visit(tree)
+    if 'temps' in mode:
+        tree = Temps().visit(tree)
+        ast.fix_missing_locations(tree)
     out = ast.unparse(tree) + '\n'
     compile(out, path, 'exec')
     with open(path, 'w', encoding='utf-8') as handle:
